@@ -51,6 +51,9 @@ struct ghost {
         WORD dtoken;
 };
 static struct ghost G[2];
+static uint64_t g_pad_total;   /* total for which the padding contract stub was last applied */
+static const uint8_t *g_pad_buf;
+static int g_pad_calls;
 static CTX *C[2];
 static CMGR *M;
 static unsigned g_didx;
@@ -73,7 +76,7 @@ static void stub_copy(void *dst, const void *src, size_t n)
         size_t doff = (size_t) ((uint8_t *) dst - c->partial_block_buffer);
         VASSERT(doff <= 2 * BS && n <= 2 * BS - doff, "C08:ctx-copy:stays-inside-partial-block-buffer");
         VASSERT(G[i].ubase != 0 && SAME_OBJ(src, G[i].ubase, G[i].ulen), "C08:ctx-copy:source-is-the-callers-buffer");
-        size_t soff = (size_t) ((const char *) src - G[i].ubase);
+        size_t soff = (size_t) ((uintptr_t) src - (uintptr_t) G[i].ubase); /* same object (checked above): offset difference */
         VASSERT(soff <= G[i].ulen && n <= G[i].ulen - soff, "C08:ctx-copy:reads-only-buffer[0..len)");
         uint64_t pos = G[i].upos + soff;
         VASSERT(doff == G[i].pb_len, "C01:ctx-copy:appends-at-the-fill-level-of-the-partial-buffer");
@@ -83,8 +86,12 @@ static void stub_copy(void *dst, const void *src, size_t n)
                 VASSERT(pos == G[i].pb_start + G[i].pb_len, "C01:ctx-copy:bytes-appended-in-stream-order");
         G[i].pb_len += (uint32_t) n;
 }
+/* some families call memcpy_fixedlen with a run-time length for the partial-buffer copies: those go to
+ * the same logger; compile-time-constant sizes (digest initialisation) are plain copies */
 #undef memcpy_varlen
 #define memcpy_varlen(d, s, n) stub_copy((d), (s), (n))
+#undef memcpy_fixedlen
+#define memcpy_fixedlen(d, s, n) (__builtin_constant_p(n) ? (void) memcpy((d), (s), (n)) : stub_copy((d), (s), (n)))
 
 static uint8_t pad_byte(uint64_t total, uint32_t fill, uint32_t nbytes, uint32_t k)
 {
@@ -102,22 +109,37 @@ static uint8_t pad_byte(uint64_t total, uint32_t fill, uint32_t nbytes, uint32_t
 #endif
 }
 
+#ifndef REAL_HASH_PAD
+/* contract of hash_pad (proved on the real function by SCEN 5): writes the standard padding of a
+ * message of total_len bytes behind the total_len mod BS carried bytes and returns the block count */
+uint32_t stub_hash_pad(uint8_t *padblock, uint64_t total_len)
+{
+        uint32_t fill = (uint32_t) (total_len & (BS - 1));
+        g_pad_total = total_len;
+        g_pad_buf = padblock;
+        g_pad_calls++;
+        return (fill + 1 + PADF <= BS) ? 1 : 2;
+}
+#endif
+
 static JOB *pick(int must)
 {
-        /* the manager hands back NULL or any job it holds (completed) */
+        /* the manager hands back NULL or a job it holds (completed).  Context 0 is the context under
+         * test; context 1 (wrapper scenario only) is another context whose last job is finishing. */
         uint8_t sel = ND_U8() % 3;
-        if (must && sel == 0)
-                sel = G[0].in_mgr ? 1 : 2;
-        if (sel == 0)
-                return 0;
-        int i = sel - 1;
-        if (!G[i].in_mgr) {
-                i = 1 - i;
-                if (!G[i].in_mgr || !must)
-                        return 0;
+        if (sel == 2 && G[1].in_mgr) {
+                G[1].in_mgr = 0;
+                return &C[1]->job;
         }
-        G[i].in_mgr = 0;
-        return &C[i]->job;
+        if ((sel == 1 || must) && G[0].in_mgr) {
+                G[0].in_mgr = 0;
+                return &C[0]->job;
+        }
+        if (must && G[1].in_mgr) {
+                G[1].in_mgr = 0;
+                return &C[1]->job;
+        }
+        return 0;
 }
 
 JOB *MGR_SUBMIT(JMGR *state, JOB *job)
@@ -127,11 +149,11 @@ JOB *MGR_SUBMIT(JMGR *state, JOB *job)
         VASSERT(i >= 0, "C06:mgr-submit:job-belongs-to-a-known-context");
         CTX *c = C[i];
         VASSERT(state == &M->mgr, "C06:mgr-submit:right-manager");
-        VASSERT(!G[i].in_mgr, "C06:mgr-submit:context-not-already-in-the-manager");
+        VASSERT(!G[i].in_mgr, "C06,C11:mgr-submit:context-not-already-in-the-manager");
         VASSERT(G[i].accepted, "C11:mgr-submit:only-accepted-submissions-reach-the-manager");
         VASSERT(c->status & ISAL_HASH_CTX_STS_PROCESSING, "C06:mgr-submit:context-in-manager-is-marked-processing");
         VASSERT(job->len >= 1 && job->len < (1ull << (32 - LENSHIFT)), "C15:mgr-submit:block-count-within-manager-precondition");
-        VASSERT(job->result_digest[g_didx] == G[i].dtoken, "C01:mgr-submit:chaining-value-is-previous-result-or-IV");
+        VASSERT(job->result_digest[g_didx] == G[i].dtoken, "C01,C20:mgr-submit:chaining-value-is-previous-result-or-IV");
         uint64_t nbytes = (uint64_t) job->len * BS;
         if (job->buffer == c->partial_block_buffer) {
                 VASSERT(G[i].pb_len == 0 || G[i].pb_start == G[i].H, "C01:mgr-submit:partial-buffer-holds-next-unhashed-bytes");
@@ -140,10 +162,15 @@ JOB *MGR_SUBMIT(JMGR *state, JOB *job)
                         VASSERT(G[i].H + G[i].pb_len == G[i].total && G[i].pb_len < BS, "C01:mgr-submit:all-message-bytes-consumed-before-padding");
                         uint32_t expect = (G[i].pb_len + 1 + PADF <= BS) ? BS : 2 * BS;
                         VASSERT(nbytes == expect, "C01:mgr-submit:padding-block-count");
-                        uint32_t k = ND_U32() % (2 * BS);
+                        uint32_t k = ND_U32() % (2 * BS); /* drawn in both modes so that replays see the same draw sequence */
+#ifdef REAL_HASH_PAD
                         if (k >= G[i].pb_len && k < nbytes)
                                 VASSERT(c->partial_block_buffer[k] == pad_byte(G[i].total, G[i].pb_len, (uint32_t) nbytes, k),
-                                        "C15:mgr-submit:padding-bytes-are-the-standard-padding-of-the-total-length");
+                                        "C01,C15,C20:mgr-submit:padding-bytes-are-the-standard-padding-of-the-total-length");
+#else
+                        VASSERT(g_pad_calls >= 1 && g_pad_buf == c->partial_block_buffer && g_pad_total == G[i].total,
+                                "C01,C15:mgr-submit:padding-computed-for-this-context-and-for-the-exact-total-length");
+#endif
                         G[i].padded = 1;
                         G[i].H = G[i].total;
                         G[i].pb_len = 0;
@@ -154,7 +181,7 @@ JOB *MGR_SUBMIT(JMGR *state, JOB *job)
                 }
         } else {
                 VASSERT(G[i].ubase != 0 && SAME_OBJ(job->buffer, G[i].ubase, G[i].ulen), "C08:mgr-submit:bulk-job-points-into-the-callers-buffer");
-                uint64_t off = (uint64_t) ((const char *) job->buffer - G[i].ubase);
+                uint64_t off = (uint64_t) ((uintptr_t) job->buffer - (uintptr_t) G[i].ubase);
                 VASSERT(off <= G[i].ulen && nbytes <= G[i].ulen - off, "C08:mgr-submit:bulk-job-inside-buffer[0..len)");
                 VASSERT(G[i].upos + off == G[i].H, "C01:mgr-submit:bulk-job-starts-at-next-unhashed-byte");
                 VASSERT(G[i].pb_len == 0 || G[i].pb_start == G[i].H + nbytes, "C01:mgr-submit:saved-tail-follows-the-bulk-job");
@@ -163,10 +190,13 @@ JOB *MGR_SUBMIT(JMGR *state, JOB *job)
         }
         G[i].in_mgr = 1;
         G[i].jobs++;
-        for (unsigned j = 0; j < NWORDS; j++)
-                job->result_digest[j] = (WORD) ND_U64();
+        job->result_digest[g_didx] = (WORD) ND_U64(); /* the manager overwrites the digest; only the observed word matters */
         G[i].dtoken = job->result_digest[g_didx];
+#if SCEN == 2
+        return 0; /* flush scenario: the job stays inside until a later flush returns it (the other order is scenario 4) */
+#else
         return pick(0);
+#endif
 }
 
 JOB *MGR_FLUSH(JMGR *state)
@@ -215,8 +245,8 @@ static void assume_inflight(int i)
                 VASSUME((G[i].H & (BS - 1)) == 0);
                 G[i].pb_len = pl;
                 G[i].pb_start = G[i].H;
-                G[i].ubase = (const char *) c->incoming_buffer;
-                VASSUME(inc == 0 || G[i].ubase != 0);
+                G[i].ubase = (const char *) verif_obj(1) + (ND_U32() & 0xffff);
+                c->incoming_buffer = G[i].ubase;
                 G[i].ulen = inc;
                 G[i].upos = G[i].total - inc;
         }
@@ -248,10 +278,10 @@ static void check_after(int i, CTX *ret, int rejected)
                         VASSERT(G[i].pb_len == 0 || G[i].pb_start == G[i].H, "C01:return:carried-bytes-are-the-stream-tail");
                         VASSERT(c->job.result_digest[g_didx] == G[i].dtoken, "C01:return:chaining-value-untouched");
                 }
-                VASSERT(c->total_length == G[i].total, "C15:return:total_length-is-the-sum-of-segment-lengths");
+                VASSERT(c->total_length == G[i].total, "C01,C15:return:total_length-is-the-sum-of-segment-lengths");
         } else if (G[i].in_mgr) {
                 VASSERT(c->status & ISAL_HASH_CTX_STS_PROCESSING, "C06:return:context-kept-by-the-manager-is-marked-processing");
-                VASSERT(c->total_length == G[i].total, "C15:inflight:total_length-is-the-sum-of-segment-lengths");
+                VASSERT(c->total_length == G[i].total, "C01,C15:inflight:total_length-is-the-sum-of-segment-lengths");
                 if (!G[i].padded) {
                         uint32_t inc = c->incoming_buffer_length;
                         VASSERT(G[i].H + G[i].pb_len + inc == G[i].total, "C01:inflight:hashed+carried+pending-equals-total");
@@ -266,23 +296,37 @@ static void check_after(int i, CTX *ret, int rejected)
         }
 }
 
-static uint8_t snap_byte(const void *p, size_t i) { return ((const uint8_t *) p)[i]; }
 
 void harness(void)
 {
         C[0] = verif_obj(sizeof(CTX));
         C[1] = verif_obj(sizeof(CTX));
-        M = verif_obj(sizeof(CMGR));
+        M = verif_poison_obj(sizeof(CMGR)); /* the context layer may only form &mgr->mgr; touching it fails the pointer check */
         g_didx = ND_U8() % NWORDS;
+        for (int i = 0; i < 2; i++) {
+                /* the API-visible fields are explicit draws (so that a counterexample can be replayed natively);
+                 * every other byte of the objects is arbitrary as well */
+                C[i]->status = (ISAL_HASH_CTX_STS) ND_U32();
+                C[i]->error = (ISAL_HASH_CTX_ERROR) ND_U32();
+                C[i]->total_length = ND_U64();
+                C[i]->incoming_buffer_length = ND_U32();
+                C[i]->partial_block_buffer_length = ND_U32();
+                C[i]->job.result_digest[g_didx] = (WORD) ND_U64();
+        }
         void *ud0 = C[0]->user_data, *ud1 = C[1]->user_data;
-        size_t mi = ND_U32() % sizeof(CMGR);
-        uint8_t mb = snap_byte(M, mi);
-        /* the other context: arbitrary in-flight state, or not involved at all */
-        int other_live = ND_U8() & 1;
-        if (other_live)
+        /* the other context (wrapper scenario): its padding job is in flight; it may carry the error of a
+         * submit that was rejected while it was in flight (that this state is reachable is scenario 1's
+         * "reject" branch: a busy context keeps everything but gets error set) */
+        int other_live = 0;
+#if SCEN == 3
+        other_live = ND_U8() & 1;
+        if (other_live) {
                 assume_inflight(1);
+                VASSUME(G[1].padded);
+        }
         int32_t err1 = (int32_t) C[1]->error;
-        VASSUME(err1 >= -3 && err1 <= 0); /* reachable: an in-flight context may carry the error of a rejected submit (P0) */
+        VASSUME(err1 >= -3 && err1 <= 0);
+#endif
         CTX *ret = 0;
         int rejected = 0;
 #if SCEN == 1 || SCEN == 3
@@ -297,8 +341,8 @@ void harness(void)
         int bad_flags = (flags & ~3) != 0, busy = (st & 1) != 0, done = (st & 4) && !(flags & 1);
         rejected = bad_flags || busy || done;
         uint64_t t0 = c->total_length;
-        size_t ci = ND_U32() % sizeof(CTX);
-        uint8_t cb = snap_byte(c, ci);
+        CTX before = *c;
+        unsigned pk = ND_U8() % (2 * BS);
         if (!rejected) {
                 G[0].accepted = 1;
                 G[0].last = (flags & 2) != 0;
@@ -340,7 +384,12 @@ void harness(void)
                 VASSERT((bad_flags && e == ISAL_HASH_CTX_ERROR_INVALID_FLAGS) || (busy && e == ISAL_HASH_CTX_ERROR_ALREADY_PROCESSING) ||
                                 (done && e == ISAL_HASH_CTX_ERROR_ALREADY_COMPLETED), "C11:reject:error-code-matches-the-reason");
                 VASSERT(g_mgr_calls == 0, "C11:reject:manager-not-touched");
-                VASSERT(ci >= offsetof(CTX, error) && ci < offsetof(CTX, error) + sizeof(c->error) ? 1 : snap_byte(c, ci) == cb,
+                VASSERT(c->status == before.status && c->total_length == before.total_length && c->incoming_buffer == before.incoming_buffer &&
+                                c->incoming_buffer_length == before.incoming_buffer_length &&
+                                c->partial_block_buffer_length == before.partial_block_buffer_length && c->user_data == before.user_data &&
+                                c->job.buffer == before.job.buffer && c->job.len == before.job.len && c->job.status == before.job.status &&
+                                c->job.user_data == before.job.user_data && c->job.result_digest[g_didx] == before.job.result_digest[g_didx] &&
+                                c->partial_block_buffer[pk] == before.partial_block_buffer[pk],
                         "C11:reject:context-unchanged-except-error");
         } else {
                 VASSERT((int32_t) c->error == 0, "C11:accept:error-cleared");
@@ -348,8 +397,31 @@ void harness(void)
         check_after(0, ret, rejected);
         if (other_live)
                 check_after(1, ret, 0);
+#elif SCEN == 4
+        /* ---- the manager has just handed back context 0 in an arbitrary in-flight state: resubmit loop */
+        assume_inflight(0);
+        G[0].in_mgr = 0;
+        ret = FN_RESUBMIT(M, C[0]);
+        check_after(0, ret, 0);
+#elif SCEN == 5
+        /* ---- the real hash_pad: standard padding for every 64-bit total, nothing else touched */
+        {
+                uint64_t total = ND_U64();
+                VASSUME(total < (1ull << 61));
+                uint32_t fill = (uint32_t) (total & (BS - 1));
+                uint8_t *pb = C[0]->partial_block_buffer;
+                uint32_t k = ND_U32() % (2 * BS);
+                uint8_t old = pb[k];
+                uint32_t n = hash_pad(pb, total);
+                uint32_t expect = (fill + 1 + PADF <= BS) ? 1 : 2;
+                VASSERT(n == expect, "C01,C15:hash_pad:block-count");
+                if (k < fill)
+                        VASSERT(pb[k] == old, "C01:hash_pad:carried-bytes-untouched");
+                else if (k < n * BS)
+                        VASSERT(pb[k] == pad_byte(total, fill, n * BS, k), "C01,C15,C20:hash_pad:bytes-are-the-standard-padding-of-the-total-length");
+        }
 #elif SCEN == 2
-        /* ---- one flush with 0, 1 or 2 contexts in flight */
+        /* ---- one flush with 0 or 1 contexts in flight */
         int live0 = ND_U8() & 1;
         if (live0)
                 assume_inflight(0);
@@ -365,6 +437,5 @@ void harness(void)
         VASSERT(ret == 0 || (ret == C[0] && live0) || (ret == C[1] && other_live), "C06:flush:returns-only-submitted-contexts");
 #endif
         VASSERT(C[0]->user_data == ud0 && C[1]->user_data == ud1, "C06:user_data-untouched");
-        VASSERT(snap_byte(M, mi) == mb, "C11:manager-bytes-untouched-by-the-context-layer");
         WITNESS_END();
 }
